@@ -305,6 +305,68 @@ func ruleTopicChannels(c *Check, rule string) {
 	}
 	c.Floor(rule, nSend, 1, "sends to subscriber channels")
 	c.Floor(rule, nClose, 1, "closes of subscriber channels")
+	// CLOSE-ONCE: a subscriber channel is closed only when it was found in the
+	// subscribers map, and it leaves the map in the same critical section. With
+	// channels entering the map once (Subscribe), no channel is closed twice,
+	// whatever the callers do (Close is documented as callable concurrently).
+	nOnce, badOnce := 0, 0
+	for _, fn := range c.P.RepoFuncs() {
+		if shortPkg(fnPkgPath(fn)) != "utils/topics" {
+			continue
+		}
+		name := QualName(fn)
+		w := Walk(c.P, fn, WalkConfig{})
+		if w.Err != nil {
+			continue
+		}
+		for i := range w.Paths {
+			p := &w.Paths[i]
+			for j := range p.Events {
+				e := &p.Events[j]
+				if e.Kind != "call" || e.Callee != "builtin:close" || len(e.Args) != 1 {
+					continue
+				}
+				nOnce++
+				arg := e.Args[0]
+				okc := false
+				if strings.HasPrefix(arg, "lookup(") && strings.HasSuffix(arg, "#0") {
+					lk := strings.TrimSuffix(arg, "#0")
+					inner := lk[len("lookup("):strings.LastIndex(lk, ")@")]
+					parts := splitTop(inner)
+					found, f := boolCond(p, lk+"#1", j)
+					if len(parts) == 2 && strings.HasSuffix(parts[0], ".subscribers") && f && found {
+						// delete(M, K) in the same critical section
+						for k := j + 1; k < len(p.Events); k++ {
+							d := &p.Events[k]
+							if d.Kind == "unlock" {
+								break
+							}
+							if d.Kind == "call" && d.Callee == "builtin:delete" && len(d.Args) == 2 && d.Args[0] == parts[0] && d.Args[1] == parts[1] && len(d.Held) > 0 {
+								okc = true
+							}
+						}
+						for k := j - 1; k >= 0 && !okc; k-- {
+							d := &p.Events[k]
+							if d.Kind == "lock" || d.Kind == "unlock" {
+								break
+							}
+							if d.Kind == "call" && d.Callee == "builtin:delete" && len(d.Args) == 2 && d.Args[0] == parts[0] && d.Args[1] == parts[1] && len(d.Held) > 0 {
+								okc = true
+							}
+						}
+					}
+				}
+				if !okc {
+					badOnce++
+					c.Bad(rule, name+"/close-once", "a subscriber channel is closed without (found in the subscribers map ∧ removed from it in the same critical section): two Close calls of one subscription, which the API allows from different goroutines, then close it twice (or close a nil channel) and panic", c.P.InstrPos(e.Instr), describe(c, p))
+				}
+			}
+		}
+	}
+	if badOnce == 0 {
+		c.Ok(rule, "utils/topics/close-once", fmt.Sprintf("%d close sites: the channel comes from a successful lookup in the subscribers map and its key is deleted in the same critical section", nOnce), "")
+	}
+	c.Floor(rule, nOnce, 1, "close sites in utils/topics")
 }
 
 // R5 GETGLOBAL.
@@ -371,6 +433,92 @@ func ruleGetGlobal(c *Check, rule string) {
 			}
 		}
 		c.Expect(okw, rule, "snapshot/storage.wait", "wait() returns only through the receive on the ready channel (closed by the first SetGlobal under the lock)", "wait() can return without the ready channel having been closed", c.P.Pos(wf.Pos()))
+	}
+	// SetGlobal wakes every waiter: readiness is a broadcast (close), issued
+	// exactly when the storage was unset, inside the critical section that
+	// sets it; nothing ever sends on the channel (a send wakes one waiter only).
+	sn := "snapshot/storage.SetGlobal"
+	sf, sp := c.walkFn(rule, sn, WalkConfig{})
+	if sp != nil {
+		const ready = "global:snapshot/storage.ready"
+		const stv = "&global:snapshot/storage.storage"
+		nFirst, nLater, bads := 0, 0, 0
+		for i := range sp {
+			p := &sp[i]
+			if p.End != "return" {
+				continue
+			}
+			var closed, stored *Event
+			var unset, uf bool
+			for j := range p.Events {
+				e := &p.Events[j]
+				switch {
+				case e.Kind == "call" && e.Callee == "builtin:close" && len(e.Args) == 1 && e.Args[0] == ready:
+					closed = e
+				case e.Kind == "store" && e.Addr == stv:
+					stored = e
+				case e.Kind == "cond" && e.Cond.Atom.Kind == "bool" && strings.HasPrefix(e.Cond.Atom.A, "isnil(global:snapshot/storage.storage"):
+					unset, uf = e.Cond.Truth, true
+				}
+			}
+			locked := func(e *Event) bool {
+				for _, h := range e.Held {
+					if h == "&global:snapshot/storage.mu" {
+						return true
+					}
+				}
+				return false
+			}
+			switch {
+			case stored == nil || stored.Val != param(sf, 0):
+				bads++
+				c.Bad(rule, sn+"/stores", "SetGlobal returns without storing its argument", c.pathPos(p), describe(c, p))
+			case !uf:
+				bads++
+				c.Bad(rule, sn+"/first-test", "SetGlobal does not test whether the storage was already set", c.pathPos(p), describe(c, p))
+			case unset && (closed == nil || !locked(closed) || eventIndex(p, closed) > eventIndex(p, stored)):
+				bads++
+				c.Bad(rule, sn+"/broadcast", "the first SetGlobal does not close the ready channel (inside the critical section, before publishing the storage): waiters in GetGlobal are woken by that close; anything else (a send, a buffered token) wakes at most one of them and the others block forever", c.pathPos(p), describe(c, p))
+			case !unset && closed != nil:
+				bads++
+				c.Bad(rule, sn+"/close-once", "a later SetGlobal closes the ready channel again (panic: close of closed channel)", c.pathPos(p), describe(c, p))
+			case unset:
+				nFirst++
+			default:
+				nLater++
+			}
+		}
+		// no send on the ready channel anywhere in the package
+		for _, fn := range c.P.RepoFuncs() {
+			if shortPkg(fnPkgPath(fn)) != "snapshot/storage" {
+				continue
+			}
+			for _, b := range fn.Blocks {
+				for _, in := range b.Instrs {
+					var ch ssa.Value
+					switch x := in.(type) {
+					case *ssa.Send:
+						ch = x.Chan
+					case *ssa.Select:
+						for _, st := range x.States {
+							if st.Dir == types.SendOnly {
+								ch = st.Chan
+							}
+						}
+					}
+					if u, ok := ch.(*ssa.UnOp); ok {
+						if g, ok := u.X.(*ssa.Global); ok && g.Name() == "ready" {
+							bads++
+							c.Bad(rule, QualName(fn)+"/ready-send", "a value is sent on the ready channel: readiness must be a broadcast (close), a send wakes one waiter", c.P.InstrPos(in), nil)
+						}
+					}
+				}
+			}
+		}
+		if bads == 0 {
+			c.Ok(rule, sn, fmt.Sprintf("SetGlobal stores its argument under the lock on all paths; the ready channel is closed exactly on the %d path(s) where the storage was unset, before the store, inside the critical section (%d later-set paths do not close); nothing sends on it", nFirst, nLater), c.P.Pos(sf.Pos()))
+		}
+		c.Floor(rule, nFirst, 1, "first-set paths of SetGlobal")
 	}
 }
 
